@@ -16,7 +16,7 @@ rm -f /tmp/apply.$$.err
 evdir=$(mktemp -d /tmp/mutev.XXXXXX)
 for c in "$@"; do
   # evidence and replays of triage runs must not overwrite /verif's: run from a throw-away VERIF_ROOT view
-  out=$(cd /verif && REPO="$wt" VERIF_EVIDENCE_DIR="$evdir" ${TIER:+VERIF_TIER=$TIER} ./check.sh $c 2>&1); rc=$?
+  out=$(cd ${VERIF_DIR:-/verif} && REPO="$wt" VERIF_EVIDENCE_DIR="$evdir" ${TIER:+VERIF_TIER=$TIER} ./check.sh $c 2>&1); rc=$?
   if [ $rc -eq 1 ] && echo "$out" | grep -q "^VIOLATION property=$c"; then
     echo "DETECTED $c by $(basename $(dirname $patch))/$(basename $patch): $(echo "$out" | grep -A1 '^VIOLATION' | grep clause | sort | uniq -c | sort -rn | head -3 | tr '\n' ' ')"
   else
